@@ -639,6 +639,46 @@ pub fn wrap_position(rng: &mut Rng) -> Option<([u8; 64], bool, usize, Direction)
     Some((c, gold, s, d))
 }
 
+/// A position as the PARSER accepts it but play never produces it: legal material, but one or two
+/// pieces standing on trap squares without a friendly neighbour.  C02 and C10 say what must happen:
+/// the first action applied removes every such piece (of either colour, on any trap).
+pub fn unclean_position(rng: &mut Rng) -> Option<[u8; 64]> {
+    let n = 4 + rng.below(20);
+    let mut c = if rng.chance(0.5) { random_position(rng, n) } else { clustered_position(rng, 4 + n / 2) };
+    let mut counts = [0usize; 13];
+    for &v in c.iter() {
+        counts[v as usize] += 1;
+    }
+    let mut added = 0;
+    let want = 1 + rng.below(2);
+    let mut traps: Vec<usize> = TRAPS.to_vec();
+    rng.shuffle(&mut traps);
+    for &t in traps.iter() {
+        if added >= want || c[t] != 0 {
+            continue;
+        }
+        for _ in 0..6 {
+            let ty = 1 + rng.below(6) as u8;
+            let v = ty + 6 * rng.below(2) as u8;
+            if counts[v as usize] >= COMPLEMENT[ty as usize] {
+                continue;
+            }
+            c[t] = v;
+            if has_friend(&c, t) {
+                c[t] = 0;
+                continue;
+            }
+            counts[v as usize] += 1;
+            added += 1;
+            break;
+        }
+    }
+    if added == 0 || !legal_material(&c) {
+        return None;
+    }
+    Some(c)
+}
+
 /// C04: every combination of the five win conditions that can be realised with a few pieces.
 pub fn results_family() -> Vec<([u8; 64], bool)> {
     let mut out = Vec::new();
